@@ -8,8 +8,14 @@ Extracted (fail closed on any other shape):
   * the group properties `return self._X`     -> src_properties     (property, "_X")
   * which attribute is iterated by Processor.run_pipeline / model_group_names / __iter__
                                               -> src_iterated_by
+  * under which conditions run_pipeline skips a group of the order (`if <test>: continue`, or the call nested
+    in `if <group>:`)                         -> src_run_pipeline_skips  ("absent" = the group is None / falsy)
   * ModelGroup.__iter__ guard, ModelGroup.run loop source, ModelFunction.__call__ argument passing
                                               -> src_group_iter_guard, src_group_run_iterates, src_model_call
+  * the attributes ModelGroup.__init__ sets and the ones __setstate__ restores (pickle round trip)
+                                              -> src_group_init_attrs, src_group_setstate_attrs
+  * every read of `detector.intermediate` in exposure.run_pipeline, "guarded" by a test of `_intermediate`
+    or "bare"                                 -> src_intermediate_reads
 The AST values are cross-checked against the imported module (MODEL_GROUPS, model_group_names,
 constructor signature) in a subprocess running with PYTHONPATH = the tree under test.
 """
@@ -149,14 +155,28 @@ def _properties(cls: ast.ClassDef, groups: list[str]):
     return props
 
 
-def _iterated(cls: ast.ClassDef, proc_tree: ast.Module):
+def _skip_text(test, grp, negate: bool) -> str:
+    """Condition under which the group is skipped, with the fetched group written GROUP; the two spellings of
+    "there is no such group" (falsy / is None: a ModelGroup defines neither __bool__ nor __len__) are "absent"."""
+    txt = ast.unparse(test)
+    if grp:
+        import re
+        txt = re.sub(rf"\b{re.escape(grp)}\b", "GROUP", txt)
+    absent_pos = {"not GROUP", "GROUP is None"}
+    absent_neg = {"GROUP", "GROUP is not None"}
+    if (not negate and txt in absent_pos) or (negate and txt in absent_neg):
+        return "absent"
+    return ("not (" + txt + ")") if negate else txt
+
+
+def _iterated(cls: ast.ClassDef, proc_tree: ast.Module, out_skips: list):
     out = []
     # Processor.run_pipeline: `for g in self.pipeline.<attr>:` ... getattr(self.pipeline, g) ... .run(detector=self.detector, debug=debug)
     rp = find_func(proc_tree, "run_pipeline", cls="Processor")
     loops = [n for n in body_no_doc(rp) if isinstance(n, (ast.For, ast.While))]
     if len(loops) != 1 or not isinstance(loops[0], ast.For) or loops[0].orelse:
         fail(rp, "run_pipeline must contain exactly one for loop")
-    others = [n for n in body_no_doc(rp) if not isinstance(n, (ast.For, ast.Expr))]
+    others = [n for n in body_no_doc(rp) if not isinstance(n, (ast.For, ast.Expr, ast.Import, ast.ImportFrom))]
     if others:
         fail(others[0], "run_pipeline: unexpected statement")
     loop = loops[0]
@@ -179,6 +199,31 @@ def _iterated(cls: ast.ClassDef, proc_tree: ast.Module):
     for n in ast.walk(loop):
         if isinstance(n, (ast.Break, ast.Return)):
             fail(n, "run_pipeline loop leaves early")
+    # under which conditions is a group of the order NOT executed ?  (`if <test>: continue` before the call,
+    # or the call nested in `if <group>:`); the fetched group is written GROUP, "it is None / falsy" is "absent"
+    grp = None
+    skips = []
+    for st in loop.body:
+        if isinstance(st, (ast.Assign, ast.AnnAssign)) and st.value is getattrs[0]:
+            tgt = st.targets[0] if isinstance(st, ast.Assign) and len(st.targets) == 1 else getattr(st, "target", None)
+            if not isinstance(tgt, ast.Name):
+                fail(st, "run_pipeline: the fetched group must be bound to a name")
+            grp = tgt.id
+        elif isinstance(st, ast.If) and not st.orelse and isinstance(st.body[-1], ast.Continue) \
+                and all(isinstance(x, ast.Expr) for x in st.body[:-1]):
+            skips.append(_skip_text(st.test, grp, negate=False))
+        elif isinstance(st, ast.If) and not st.orelse and any(n is runs[0] for n in ast.walk(st)):
+            skips.append(_skip_text(st.test, grp, negate=True))
+            if any(isinstance(n, ast.Continue) for n in ast.walk(st)):
+                fail(st, "run_pipeline: continue next to the call")
+        elif isinstance(st, ast.Expr):
+            if any(isinstance(n, ast.Continue) for n in ast.walk(st)):
+                fail(st, "run_pipeline: unexpected statement in the loop")
+        else:
+            fail(st, "run_pipeline: unexpected statement in the loop")
+    if grp is None or ast.unparse(runs[0].func.value) != grp:
+        fail(loop, "run_pipeline must call .run on the fetched group")
+    out_skips.extend(skips)
     # model_group_names
     mg = find_func(cls, "model_group_names")
     b = body_no_doc(mg)
@@ -241,6 +286,62 @@ def _model_call(tree: ast.Module):
     return parts
 
 
+def _self_attrs_assigned(fn: ast.FunctionDef) -> list[str]:
+    """names X of every `self.X = ...` / `self.X: T = ...` statement of the function (any nesting), in order"""
+    out = []
+    for n in ast.walk(fn):
+        tgts = []
+        if isinstance(n, ast.Assign):
+            tgts = n.targets
+        elif isinstance(n, (ast.AnnAssign, ast.AugAssign)):
+            tgts = [n.target]
+        for t in tgts:
+            if _is_self_attr(t) and t.attr not in out:
+                out.append(t.attr)
+    return out
+
+
+def _group_state(tree: ast.Module):
+    """What a ModelGroup carries (attributes set by __init__) and what __setstate__ restores after a pickle
+    round trip; without __setstate__ / __getstate__ the default pickling restores everything."""
+    cls = _cls(tree, "ModelGroup")
+    init = _self_attrs_assigned(find_func(cls, "__init__"))
+    sets = [n for n in cls.body if isinstance(n, ast.FunctionDef) and n.name == "__setstate__"]
+    gets = [n for n in cls.body if isinstance(n, ast.FunctionDef) and n.name == "__getstate__"]
+    if not sets and not gets:
+        return init, list(init)
+    if len(sets) != 1:
+        raise TranslationError("ModelGroup: __getstate__ without __setstate__ (or several)")
+    for n in ast.walk(sets[0]):
+        if isinstance(n, ast.Call) and isinstance(n.func, ast.Attribute) and n.func.attr == "update" \
+                and ast.unparse(n.func.value) == "self.__dict__":
+            raise TranslationError("ModelGroup.__setstate__ updates __dict__ wholesale: restored attributes unknown")
+    return init, _self_attrs_assigned(sets[0])
+
+
+def _intermediate_reads(tree: ast.Module):
+    """Every read of `detector.intermediate` (the property raises while `_intermediate` is None) in
+    exposure.run_pipeline: "guarded" when it sits under an `if` / conditional expression whose test looks at
+    `_intermediate`, else "bare"."""
+    fn = find_func(tree, "run_pipeline")
+    parent = {}
+    for n in ast.walk(fn):
+        for c in ast.iter_child_nodes(n):
+            parent[c] = n
+    out = []
+    for n in ast.walk(fn):
+        if isinstance(n, ast.Attribute) and n.attr == "intermediate" and isinstance(n.ctx, ast.Load):
+            guarded = False
+            cur = n
+            while cur in parent:
+                up = parent[cur]
+                if isinstance(up, (ast.If, ast.IfExp)) and cur is not up.test and "_intermediate" in ast.unparse(up.test):
+                    guarded = True
+                cur = up
+            out.append("guarded" if guarded else "bare")
+    return out
+
+
 RUNTIME = r"""
 import inspect, json
 from pyxel.pipelines import DetectionPipeline
@@ -263,7 +364,8 @@ def _runtime(repo: Path) -> dict:
     return json.loads(r.stdout.strip().splitlines()[-1])
 
 
-def render(groups, kwargs, feeds, props, iterated, guard, run_src, call_parts) -> str:
+def render(groups, kwargs, feeds, props, iterated, guard, run_src, call_parts, skips=("absent",),
+           state=(("_log", "_name", "models"), ("_log", "models", "_name")), reads=("guarded", "guarded")) -> str:
     return (HEADER + PRELUDE +
             f"Definition src_model_groups : list string :=\n  {_lst(_s(g) for g in groups)}.\n"
             f"Definition src_ctor_kwargs : list string :=\n  {_lst(_s(g) for g in kwargs)}.\n"
@@ -273,9 +375,13 @@ def render(groups, kwargs, feeds, props, iterated, guard, run_src, call_parts) -
             + _lst(f"({_s(p)}, {_s(a)})" for p, a in props) + ".\n"
             "Definition src_iterated_by : list (string * string) :=\n  "
             + _lst(f"({_s(w)}, {_s(a)})" for w, a in iterated) + ".\n"
+            f"Definition src_run_pipeline_skips : list string := {_lst(_s(x) for x in skips)}.\n"
             f"Definition src_group_iter_guard : string := {_s(guard)}.\n"
             f"Definition src_group_run_iterates : string := {_s(run_src)}.\n"
-            f"Definition src_model_call : list string := {_lst(_s(p) for p in call_parts)}.\n")
+            f"Definition src_model_call : list string := {_lst(_s(p) for p in call_parts)}.\n"
+            f"Definition src_group_init_attrs : list string := {_lst(_s(x) for x in state[0])}.\n"
+            f"Definition src_group_setstate_attrs : list string := {_lst(_s(x) for x in state[1])}.\n"
+            f"Definition src_intermediate_reads : list string := {_lst(_s(x) for x in reads)}.\n")
 
 
 def translate(repo: Path, runtime: bool = True) -> str:
@@ -286,7 +392,8 @@ def translate(repo: Path, runtime: bool = True) -> str:
     _no_rebinding(ptree, cls)
     kwargs, feeds = _ctor(cls)
     props = _properties(cls, groups + kwargs)
-    iterated = _iterated(cls, parse(repo, "pyxel/pipelines/processor.py"))
+    skips: list = []
+    iterated = _iterated(cls, parse(repo, "pyxel/pipelines/processor.py"), skips)
     guard, run_src = _model_group(parse(repo, "pyxel/pipelines/model_group.py"))
     call_parts = _model_call(parse(repo, "pyxel/pipelines/model_function.py"))
     if runtime:
@@ -297,7 +404,9 @@ def translate(repo: Path, runtime: bool = True) -> str:
             raise TranslationError(f"model_group_names returns {rt['names']}, MODEL_GROUPS literal is {groups}")
         if rt["sig"] != kwargs:
             raise TranslationError(f"constructor signature {rt['sig']} differs from the parsed keywords {kwargs}")
-    return render(groups, kwargs, feeds, props, iterated, guard, run_src, call_parts)
+    state = _group_state(parse(repo, "pyxel/pipelines/model_group.py"))
+    reads = _intermediate_reads(parse(repo, "pyxel/exposure/exposure.py"))
+    return render(groups, kwargs, feeds, props, iterated, guard, run_src, call_parts, skips, state, reads)
 
 
 _G = ["scene_generation", "photon_collection", "phasing", "charge_generation", "charge_collection",
